@@ -328,6 +328,14 @@ class ColFolder(Folder):
 
     c_np_zeros_like = c_np_empty_like
 
+    def c_np_empty(self, a, kw):
+        # np.empty(points.shape, ...): a fresh point array of the same layout
+        if a and isinstance(a[0], tuple) and len(a[0]) == 2 and a[0][0] == "N" and isinstance(a[0][1], int):
+            return Cols([None] * a[0][1])
+        raise Refuse("np.empty")
+
+    c_np_zeros = c_np_empty
+
     def c_np_isclose(self, a, kw):
         return Undecided("np.isclose")
 
@@ -746,6 +754,9 @@ def rule_d(ctx):
                     n += 1
                     ctx.instance(R)
                     r = _rounder(st.value)
+                    if r is None and isinstance(st.value, ast.Name):
+                        # a local that holds an already rounded value
+                        r = local_round.get(st.value.id) or ("integral:buffer" if st.value.id in int_buffers else None)
                     ctx.ob(R, f.qname, f"store into integer buffer {norm(st.targets[0])} is rounded", r is not None,
                            f"value {norm(st.value)[:80]} is implicitly truncated by the dtype=int buffer", st)
                     if f.qname in position_paths and r is not None and not r.startswith("integral"):
